@@ -219,6 +219,49 @@ where
     if make().rev().map(conv).collect::<Vec<_>>() != model.iter().rev().cloned().collect::<Vec<_>>() {
         fail(acc, "iterator-rev", format!("{what}: rev() differs from the model"), c);
     }
+    // internal iteration: fold / rfold / try_fold / try_rfold / for_each and what is built on them
+    // (an iterator type may override each of them separately from next / next_back)
+    let fwd: Vec<T> = model.to_vec();
+    let bwd: Vec<T> = model.iter().rev().cloned().collect();
+    let push = |mut v: Vec<T>, x: T| {
+        v.push(x);
+        v
+    };
+    let checks: Vec<(&str, Vec<T>, &Vec<T>)> = vec![
+        ("fold", make().fold(Vec::new(), |v, x| push(v, conv(x))), &fwd),
+        ("rfold", make().rfold(Vec::new(), |v, x| push(v, conv(x))), &bwd),
+        ("rev().fold", make().rev().fold(Vec::new(), |v, x| push(v, conv(x))), &bwd),
+        ("rev().rfold", make().rev().rfold(Vec::new(), |v, x| push(v, conv(x))), &fwd),
+        ("try_fold", make().try_fold(Vec::new(), |v, x| Some(push(v, conv(x)))).unwrap_or_default(), &fwd),
+        ("try_rfold", make().try_rfold(Vec::new(), |v, x| Some(push(v, conv(x)))).unwrap_or_default(), &bwd),
+        ("for_each", {
+            let mut v = Vec::new();
+            make().for_each(|x| v.push(conv(x)));
+            v
+        }, &fwd),
+        ("rev().for_each", {
+            let mut v = Vec::new();
+            make().rev().for_each(|x| v.push(conv(x)));
+            v
+        }, &bwd),
+        ("map().collect", make().map(conv).collect(), &fwd),
+        ("rev().map().collect", make().rev().map(conv).collect(), &bwd),
+        ("chain(empty)", make().chain(std::iter::empty()).map(conv).collect(), &fwd),
+        ("filter(all)", make().filter(|_| true).map(conv).collect(), &fwd),
+        ("enumerate", make().enumerate().map(|(_, x)| conv(x)).collect(), &fwd),
+    ];
+    for (name, got, want) in checks {
+        acc.observer_calls += 1;
+        if &got != want {
+            fail(acc, "iterator-internal-iteration", format!("{what}: {name} yields {got:?}, model {want:?}"), c);
+        }
+    }
+    if make().rev().last().map(conv) != model.first().cloned() || make().rev().count() != n {
+        fail(acc, "iterator-internal-iteration", format!("{what}: rev().last() / rev().count() differ from the model"), c);
+    }
+    if make().position(|_| false).is_some() || make().rfind(|_| false).is_some() || make().any(|_| false) || !make().all(|_| true) {
+        fail(acc, "iterator-internal-iteration", format!("{what}: position / rfind / any / all disagree with an iterator of {n} items"), c);
+    }
     // mixed: one step from the front, then positional from the back and vice versa
     if n >= 2 {
         let mut it = make();
@@ -272,10 +315,17 @@ fn explore(frame: &Frame, m: &Model, keys: &[usize], bin: u8, ops: &mut Vec<usiz
     }
 }
 
-/// `bin`: 0 = no binary part, 1 = a payload with protocol-like bytes, 2 = a zero-length payload
-/// (`binary: 0`, what MPD sends at the end of a picture)
+/// `bin % 3`: 0 = no binary part, 1 = a payload with protocol-like bytes, 2 = a zero-length payload
+/// (`binary: 0`, what MPD sends at the end of a picture). `bin / 3`: 0 = pairwise distinct values,
+/// 1 = every field has the same value (identical neighbouring lines), 2 = blank-edged values.
 fn make_frame(keys: &[usize], bin: u8) -> (Frame, Model) {
-    let fields: Vec<(String, String)> = keys.iter().enumerate().map(|(i, k)| (KEYS[*k].to_string(), format!("v{i}"))).collect();
+    let value = |i: usize| match bin / 3 {
+        0 => format!("v{i}"),
+        1 => "same".to_string(),
+        _ => format!("  v{i}\t "),
+    };
+    let fields: Vec<(String, String)> = keys.iter().enumerate().map(|(i, k)| (KEYS[*k].to_string(), value(i))).collect();
+    let bin = bin % 3;
     let af = AFrame { fields: fields.clone(), binary: match bin {
         0 => None,
         1 => Some(b"\0bin\n".to_vec()),
@@ -419,6 +469,12 @@ pub fn run(tier: Tier) -> i32 {
         for bin in 0..=2u8 {
             frames.push((ks.clone(), bin));
         }
+        // identical neighbouring lines / blank-edged values (without and with a payload)
+        if !ks.is_empty() {
+            for bin in [3u8, 4, 6] {
+                frames.push((ks.clone(), bin));
+            }
+        }
     }
     let acc = frames
         .par_iter()
@@ -443,7 +499,7 @@ pub fn run(tier: Tier) -> i32 {
     cov.evaluations = acc.nodes;
     cov.distinct_nontrivial = acc.nontrivial;
     cov.rule = format!(
-        "frames: all key sequences of length 0..=4 over {{a, A, b}} with distinct values, without a binary part, with a payload and with a zero-length payload ({} frames, built by the real parser) x every sequence of <= {depth} operations from {{get(a), get(A), get(b), get(zz), take_binary}}; after every step every observer incl. fields()/into_iter() under every next/next_back pattern and the positional / consuming adaptors (nth, nth_back, last, count, size_hint, skip, step_by, rev); responses: 0..=3 frames with and without error (incl. partial output before the error, zero-length payloads) under every front/back pattern with size hints; evaluations = operation-sequence prefixes (search tree nodes); non-trivial = frames with >= 2 fields and all response cases",
+        "frames: all key sequences of length 0..=4 over {{a, A, b}} with distinct values, without a binary part, with a payload and with a zero-length payload, with pairwise distinct, all-identical and blank-edged values ({} frames, built by the real parser) x every sequence of <= {depth} operations from {{get(a), get(A), get(b), get(zz), take_binary}}; after every step every observer incl. fields()/into_iter() under every next/next_back pattern and the positional / consuming adaptors (nth, nth_back, last, count, size_hint, skip, step_by, rev); responses: 0..=3 frames with and without error (incl. partial output before the error, zero-length payloads) under every front/back pattern with size hints; evaluations = operation-sequence prefixes (search tree nodes); non-trivial = frames with >= 2 fields and all response cases",
         acc.frames
     );
     cov.states = acc.nodes;
@@ -466,7 +522,7 @@ pub fn replay(case: &Value) -> i32 {
         }
     } else {
         let keys: Vec<usize> = case["keys"].as_array().map(|a| a.iter().filter_map(|x| x.as_u64().map(|v| (v as usize).min(2))).collect()).unwrap_or_default();
-        let bin = case["binary"].as_u64().map(|v| v.min(2) as u8).or_else(|| case["binary"].as_bool().map(|b| b as u8)).unwrap_or(0);
+        let bin = case["binary"].as_u64().map(|v| v.min(8) as u8).or_else(|| case["binary"].as_bool().map(|b| b as u8)).unwrap_or(0);
         let ops: Vec<usize> = case["ops"].as_array().map(|a| a.iter().filter_map(|x| x.as_u64().map(|v| (v as usize).min(4))).collect()).unwrap_or_default();
         println!("replay C19: frame keys {:?} binary {bin}, operations {:?}", keys.iter().map(|k| KEYS[*k]).collect::<Vec<_>>(), ops.iter().map(|o| format!("{:?}", OPS[*o])).collect::<Vec<_>>());
         let (mut f, mut m) = make_frame(&keys, bin);
